@@ -56,6 +56,8 @@ type RigOpts struct {
 	Plan     []Step
 	Tr       *RecTransport // optional pre-built transport
 	NoHooks  bool
+	// OnPoint, if set, is called at every hook point of the channel before the plan is applied.
+	OnPoint func(p netty.VerifPoint)
 	// QuietTail installs an exception handler at the end that closes the channel
 	// like the tail would, but without writing to stderr.
 	QuietTail bool
@@ -155,7 +157,12 @@ func NewRig(o RigOpts) *Rig {
 	}
 	r.Ch = f(atomic.AddInt64(&rigID, 1), ctx, r.PL, r.T, r.Ex)
 	if !o.NoHooks {
-		Route(r.Ch, r.S.HookFn())
+		fn := r.S.HookFn()
+		if o.OnPoint != nil {
+			inner, extra := fn, o.OnPoint
+			fn = func(p netty.VerifPoint) { extra(p); inner(p) }
+		}
+		Route(r.Ch, fn)
 	}
 	r.PL.ServeChannel(r.Ch)
 	return r
